@@ -9,7 +9,7 @@
       that fails yields an error; the starting offset is irrelevant.
    C. the pooled scanner object (Model/Sys.v): every object put back is clean,
       so a parse does not depend on the history of earlier parses. *)
-From Mpath.Model Require Import Base Dec Types Ast Lexer Parser.
+From Mpath.Model Require Import Base Dec Types Ast Lexer Parser Reader Sys.
 From Mpath.Proofs Require Import NoPanic.
 
 (** * A. Totality of the parser *)
@@ -573,8 +573,6 @@ Theorem C08_lex_fuel_sufficient : forall uni cs k,
   (S (length cs) <= k)%nat -> tokens_fuel uni k cs = tokens_fuel uni (S (length cs)) cs.
 Proof. intros uni cs k Hk. apply tokens_fuel_enough; lia. Qed.
 
-From Mpath.Model Require Import Reader.
-
 (** * B. The outcome does not depend on how the reader delivers the bytes *)
 
 (** ** utf8.FullRune and utf8.DecodeRune
@@ -828,3 +826,175 @@ Example C08_chunk_example :
   parse_reader uni_ascii [RChunk (bs "$.a"); RChunk []; RChunk [chr 226]; RChunk [chr 130]; RChunk []; RChunk [chr 172]]
   = parse_string uni_ascii (bs "$.a" ++ [chr 226; chr 130; chr 172]).
 Proof. vm_compute. reflexivity. Qed.
+
+(** * C. The outcome does not depend on what was parsed before *)
+
+(** what a later parse needs of the object it is handed *)
+Definition clean (o : sobj) : Prop := s_err o = None /\ s_ident_std o = true.
+
+Lemma clean_new_obj : clean new_obj.
+Proof. split; reflexivity. Qed.
+
+(** the body never touches the identifier predicate, whatever the exit *)
+Lemma body_ident : forall o uni bytes x o',
+  body o uni bytes = (x, o') -> s_ident_std o' = s_ident_std o.
+Proof.
+  intros o uni bytes x o' E. unfold body in E.
+  destruct (negb (s_ident_std o && s_mode_std o)); [inversion E; reflexivity|].
+  destruct (lex uni bytes) as [toks|].
+  - destruct (parse_tokens toks) as [t|e|m| |w]; try (inversion E; reflexivity).
+    destruct (s_err o); inversion E; reflexivity.
+  - inversion E; subst. unfold on_error. destruct (s_err o); reflexivity.
+Qed.
+
+(** the deferred function runs on every exit, so every object put back is
+    clean: normal return, error return, panic, and the exits of the model *)
+Theorem C08_put_back_clean : forall o uni bytes,
+  s_ident_std o = true -> clean (snd (parse_with o uni bytes)).
+Proof.
+  intros o uni bytes Hi. unfold parse_with.
+  destruct (body (reset o) uni bytes) as [x o'] eqn:E. cbn [snd].
+  apply body_ident in E. split; [reflexivity|].
+  cbn [deferred s_ident_std]. rewrite E. exact Hi.
+Qed.
+
+Theorem C08_put_back_clean_on_exit : forall o uni bytes x o',
+  s_ident_std o = true -> body (reset o) uni bytes = (x, o') -> clean (deferred o').
+Proof.
+  intros o uni bytes x o' Hi E. apply body_ident in E. split; [reflexivity|].
+  cbn [deferred s_ident_std]. rewrite E. exact Hi.
+Qed.
+
+Lemma put_back_clean_bad_seek : forall o, s_ident_std o = true -> clean (snd (parse_bad_seek o)).
+Proof. intros o Hi. split; [reflexivity|exact Hi]. Qed.
+
+(** on a clean object ParseReadSeeker is ParseString of the model *)
+Theorem C08_parse_with_clean : forall o uni bytes,
+  clean o -> fst (parse_with o uni bytes) = parse_string uni bytes.
+Proof.
+  intros [e i md h] uni bytes [He Hi]. cbn [s_err s_ident_std] in He, Hi. subst e i.
+  unfold parse_with, body, reset, parse_string. cbn [s_err s_ident_std s_mode_std andb negb].
+  destruct (lex uni bytes) as [toks|]; [|reflexivity].
+  destruct (parse_tokens toks) as [t|e|m| |w]; reflexivity.
+Qed.
+
+(** ** Histories *)
+Lemma remove_nth_clean : forall (p : pool) i, Forall clean p -> Forall clean (remove_nth i p).
+Proof.
+  induction p as [|o p IH]; intros i H; [exact H|].
+  inversion H as [|o0 p0 Ho Hp]; subst.
+  destruct i as [|i]; cbn [remove_nth]; [exact Hp|].
+  constructor; [exact Ho|apply IH; exact Hp].
+Qed.
+
+Lemma get_clean : forall pick p o p',
+  Forall clean p -> get pick p = (o, p') -> clean o /\ Forall clean p'.
+Proof.
+  intros pick p o p' H E. unfold get in E.
+  destruct pick as [i|].
+  - destruct (nth_error p i) as [o1|] eqn:En.
+    + inversion E; subst. split.
+      * rewrite Forall_forall in H. apply H. eapply nth_error_In. exact En.
+      * apply remove_nth_clean. exact H.
+    + inversion E; subst. split; [apply clean_new_obj|exact H].
+  - inversion E; subst. split; [apply clean_new_obj|exact H].
+Qed.
+
+Lemma step_clean : forall p c, Forall clean p -> Forall clean (fst (step p c)).
+Proof.
+  intros p c H. destruct c as [pick uni bytes|pick]; cbn [step].
+  - destruct (get pick p) as [o p'] eqn:Eg.
+    destruct (get_clean pick p o p' H Eg) as [[_ Hi] Hp].
+    pose proof (C08_put_back_clean o uni bytes Hi) as Hc.
+    destruct (parse_with o uni bytes) as [r o']. cbn [fst snd] in *.
+    constructor; assumption.
+  - destruct (get pick p) as [o p'] eqn:Eg.
+    destruct (get_clean pick p o p' H Eg) as [[_ Hi] Hp].
+    pose proof (put_back_clean_bad_seek o Hi) as Hc.
+    destruct (parse_bad_seek o) as [r o']. cbn [fst snd] in *.
+    constructor; assumption.
+Qed.
+
+Theorem C08_pool_invariant : forall history p, Forall clean p -> Forall clean (run history p).
+Proof.
+  induction history as [|c history IH]; intros p H; [exact H|].
+  unfold run. cbn [fold_left]. apply IH. apply step_clean. exact H.
+Qed.
+
+(** After any history of earlier calls (successful, failing, on readers whose
+    Seek fails), and whichever free object Get hands out or none, a parse
+    yields what ParseString yields on the bytes alone. *)
+Theorem C08_history_independent : forall history pick uni bytes,
+  snd (step (run history []) (Parse pick uni bytes)) = parse_string uni bytes.
+Proof.
+  intros history pick uni bytes.
+  pose proof (C08_pool_invariant history [] (Forall_nil _)) as H.
+  cbn [step]. destruct (get pick (run history [])) as [o p'] eqn:Eg.
+  destruct (get_clean _ _ _ _ H Eg) as [Hc _].
+  pose proof (C08_parse_with_clean o uni bytes Hc) as E.
+  destruct (parse_with o uni bytes) as [r o']. exact E.
+Qed.
+
+(** ** The invariant is exactly what is needed
+    An object that kept an error from an earlier parse turns a valid query
+    into an error: without [s.err = nil] in the deferred function a failed
+    parse would poison the next one that draws the same object. *)
+Theorem C08_stale_error_would_leak : forall o m uni bytes t,
+  s_err o = Some m -> s_ident_std o = true -> parse_string uni bytes = Ok t ->
+  fst (parse_with o uni bytes) = Err (EOther m).
+Proof.
+  intros [e i md h] m uni bytes t He Hi Hp. cbn [s_err s_ident_std] in He, Hi. subst e i.
+  unfold parse_string in Hp.
+  unfold parse_with, body, reset. cbn [s_err s_ident_std s_mode_std andb negb].
+  destruct (lex uni bytes) as [toks|]; [|discriminate Hp].
+  rewrite Hp. reflexivity.
+Qed.
+
+Example C08_stale_error_example :
+  fst (parse_with (mkS (Some "literal not terminated"%string) true true true) uni_ascii (bs "$.a"))
+  = Err (EOther "literal not terminated")
+  /\ exists t, parse_string uni_ascii (bs "$.a") = Ok t.
+Proof. split; [vm_compute; reflexivity|eexists; vm_compute; reflexivity]. Qed.
+
+Theorem C08_clean_is_necessary : forall o,
+  (forall uni bytes, fst (parse_with o uni bytes) = parse_string uni bytes) -> clean o.
+Proof.
+  intros [e i md h] H. specialize (H uni_ascii (bs "$")).
+  destruct e as [m|]; destruct i; vm_compute in H; try discriminate H.
+  split; reflexivity.
+Qed.
+
+(** ** Nothing is written to the standard streams
+    text/scanner prints to os.Stderr only when no handler is installed; Reset
+    installs one before the first character is read.  (mpath itself has no
+    print statement on the parse path: a fact about the source text, checked
+    outside Coq.) *)
+Theorem C08_no_stderr : forall o uni bytes, writes_stderr (reset o) uni bytes = false.
+Proof. reflexivity. Qed.
+
+Print Assumptions C08_parse_total.
+Print Assumptions C08_parse_total_with.
+Print Assumptions C08_declined_only_numeral.
+Print Assumptions C08_parse_tokens_total.
+Print Assumptions C08_parse_string_total.
+Print Assumptions C08_parse_string_no_fuel_no_panic.
+Print Assumptions C08_exactly_one.
+Print Assumptions C08_chars_fuel_sufficient.
+Print Assumptions C08_scan_string_fuel_sufficient.
+Print Assumptions C08_lex_fuel_sufficient.
+Print Assumptions C08_chars_chunk_independent.
+Print Assumptions C08_chunk_independent.
+Print Assumptions C08_fault_is_error.
+Print Assumptions C08_reader_fuel_sufficient.
+Print Assumptions C08_offset_independent.
+Print Assumptions C08_read_seeker.
+Print Assumptions C08_read_seeker_fault.
+Print Assumptions C08_read_seeker_bad_seek.
+Print Assumptions C08_put_back_clean.
+Print Assumptions C08_put_back_clean_on_exit.
+Print Assumptions C08_parse_with_clean.
+Print Assumptions C08_pool_invariant.
+Print Assumptions C08_history_independent.
+Print Assumptions C08_stale_error_would_leak.
+Print Assumptions C08_clean_is_necessary.
+Print Assumptions C08_no_stderr.
